@@ -7,6 +7,7 @@
    deliver that result when it fits into dmax with its terminator and fail with a cleared
    dest otherwise, never touching anything outside dest[0..dmax). *)
 EXTENDS Mbs, Json, IOUtils
+EOVERFLOW == 75
 VARIABLES l, bad
 T == ndJsonDeserialize(IOEnv.TRACE)
 
@@ -58,6 +59,11 @@ Why(e) ==
            ELSE IF Restart(e) /\ e.pos # e.start THEN "query_moved_srcp" ELSE "")
      ELSE IF e.dmax = 0 THEN (IF e.rc # ESZEROL THEN "dmax_zero_accepted" ELSE IF e.hn # 1 THEN "report" ELSE "")
      ELSE IF e.dmax > RMAX(e) \/ e.len > RMAX(e) THEN (IF e.rc # ESLEMAX THEN "oversize_accepted" ELSE IF e.hn # 1 THEN "report" ELSE "")
+     ELSE IF ~Single(e) /\ Has(e.flags, 64) /\ e.len > e.dmax THEN
+          \* the size of the destination object is known (here: exactly dmax elements) and len exceeds it: documented for wcstombs_s /
+          \* wcsrtombs_s ("EOVERFLOW when dmax or len > size of dest"), applied by all four - reported, dest left empty
+          (IF e.rc # EOVERFLOW THEN (IF e.rc = EOK THEN "len_above_object_size_accepted" ELSE "report")
+           ELSE IF e.hn # 1 THEN "report" ELSE IF ~Cleared(e) THEN "dest_not_cleared" ELSE "")
      ELSE IF n < 0 THEN
           (IF e.rc = EOK THEN "encoding_error_accepted" ELSE IF ~Cleared(e) THEN "dest_not_cleared" ELSE IF e.hn > 1 THEN "report" ELSE "")
      ELSE IF ~Single(e) /\ e.len >= e.dmax /\ R.stop = "len" THEN
